@@ -54,6 +54,157 @@ EXPECT = {  # role -> acceptable type classes of the field
     'slots': ('vector',), 'index': ('umap', 'map'), 'order': ('list',), 'perm': ('vector',),
 }
 
+# Coarse type signature of every member the table above (or a rule) names, frozen from the pinned tree.  Used only when a name
+# is missing: a member that was merely renamed is found again by its signature if exactly one unmatched member has it.
+SIGS = {
+    'fifo_cache': {'class': {'m_fifo_list': 'list<rec>', 'm_keyed_elements': 'umap', 'm_lock': 'mutex', 'm_used_size': 'ulong'},
+                   'rec': {'m_keyed_position': 'optional', 'm_value': 'value'}},
+    'lfu_cache': {'class': {'m_keyed_elements': 'umap', 'm_lfu_list': 'multimap', 'm_lock': 'mutex', 'm_open_list': 'list<rec>',
+                            'm_open_list_end': 'list_it', 'm_used_size': 'ulong'},
+                  'rec': {'m_keyed_position': 'umap_it', 'm_lfu_position': 'tree_it', 'm_value': 'value'}},
+    'lfuda_cache': {'class': {'m_dynamic_age_list': 'list<rec>', 'm_dynamic_age_ratio': 'float', 'm_dynamic_age_tick': 'duration',
+                              'm_keyed_elements': 'umap', 'm_lfu_list': 'multimap', 'm_lock': 'mutex', 'm_open_list_end': 'list_it',
+                              'm_used_size': 'ulong'},
+                    'rec': {'m_dynamic_age': 'time_point', 'm_keyed_position': 'umap_it', 'm_lfu_position': 'tree_it', 'm_value': 'value'}},
+    'lru_cache': {'class': {'m_elements': 'vector<rec>', 'm_keyed_elements': 'umap', 'm_lock': 'mutex', 'm_lru_end': 'list_it',
+                            'm_lru_list': 'list<scalar>', 'm_used_size': 'ulong'},
+                  'rec': {'m_keyed_position': 'umap_it', 'm_lru_position': 'list_it', 'm_value': 'value'}},
+    'mru_cache': {'class': {'m_elements': 'vector<rec>', 'm_keyed_elements': 'umap', 'm_lock': 'mutex', 'm_mru_end': 'list_it',
+                            'm_mru_list': 'list<scalar>', 'm_used_size': 'ulong'},
+                  'rec': {'m_keyed_position': 'umap_it', 'm_mru_position': 'list_it', 'm_value': 'value'}},
+    'rr_cache': {'class': {'m_elements': 'vector<rec>', 'm_keyed_elements': 'umap', 'm_lock': 'mutex', 'm_mt': 'rng',
+                           'm_open_list': 'vector<scalar>', 'm_open_list_end': 'ulong', 'm_random_device': 'randdev'},
+                 'rec': {'m_keyed_position': 'umap_it', 'm_open_list_position': 'ulong', 'm_value': 'value'}},
+    'tlru_cache': {'class': {'m_elements': 'vector<rec>', 'm_keyed_elements': 'umap', 'm_lock': 'mutex', 'm_lru_end': 'list_it',
+                             'm_lru_list': 'list<scalar>', 'm_ttl_list': 'multimap', 'm_used_size': 'ulong'},
+                   'rec': {'m_expire_time': 'time_point', 'm_keyed_position': 'umap_it', 'm_lru_position': 'list_it',
+                           'm_ttl_position': 'tree_it', 'm_value': 'value'}},
+    'utlru_cache': {'class': {'m_elements': 'vector<rec>', 'm_keyed_elements': 'umap', 'm_lock': 'mutex', 'm_lru_end': 'list_it',
+                              'm_lru_list': 'list<scalar>', 'm_ttl': 'duration', 'm_ttl_list': 'multimap', 'm_used_size': 'ulong'},
+                    'rec': {'m_expire_time': 'time_point', 'm_keyed_position': 'umap_it', 'm_lru_position': 'list_it',
+                            'm_ttl_position': 'tree_it', 'm_value': 'value'}},
+    'ut_map': {'class': {'m_keyed_elements': 'map', 'm_lock': 'mutex', 'm_ttl_list': 'list<rec>', 'm_uniform_ttl': 'duration'},
+               'rec': {'m_expire_time': 'time_point', 'm_keyed_elements_position': 'tree_it', 'm_ttl_position': 'list_it',
+                       'm_value': 'value'}},
+    'ut_set': {'class': {'m_keyed_elements': 'map', 'm_lock': 'mutex', 'm_ttl_list': 'list<rec>', 'm_uniform_ttl': 'duration'},
+               'rec': {'m_expire_time': 'time_point', 'm_keyed_elements_position': 'tree_it', 'm_ttl_position': 'list_it'}},
+}
+
+
+# Parameter names of the public API as on the pinned tree (the rules name subjects as ('p', <name>)); a renamed parameter is
+# recognised by its position among the overloads of the same arity (iterator-pair overloads: first two parameters of one type).
+PARAMS = {
+    '<ctor>': {'lfuda_cache': ['capacity', 'dynamic_age_tick', 'dynamic_age_ratio', 'max_load_factor'],
+               'utlru_cache': ['ttl', 'capacity', 'max_load_factor'], 'ut_map': ['uniform_ttl'], 'ut_set': ['uniform_ttl'],
+               '*': ['capacity', 'max_load_factor']},
+    'insert': {'tlru_cache': [['ttl', 'key', 'value', 'a']], 'ut_set': [['key', 'a']],
+               '*': [['key', 'value', 'a'], ['begin', 'end', 'a']]},
+    'insert_range': {'ut_set': [['key_range', 'a']], '*': [['key_value_range', 'a']]},
+    'erase': {'*': [['key'], ['begin', 'end']]},
+    'erase_range': {'*': [['key_range']]},
+    'find': {'*': [['key'], ['key', 'peek'], ['begin', 'end', 'distance']]},
+    'find_with_use_count': {'*': [['key', 'peek']]},
+    'find_range': {'*': [['key_range'], ['key_range', 'peek']]},
+    'find_range_fill': {'ut_set': [['key_bool_range']],
+                        '*': [['key_optional_value_range'], ['key_optional_value_range', 'peek'], ['begin', 'end']]},
+    'update_ttl': {'*': [['ttl']]},
+}
+
+
+def canonical_params(cname, m):
+    if m.is_ctor:
+        names = PARAMS['<ctor>'].get(cname, PARAMS['<ctor>']['*'])
+        return names if len(names) == len(m.params) else None
+    tab = PARAMS.get(m.name)
+    if tab is None:
+        return None
+    cands = [c for c in tab.get(cname, tab['*']) if len(c) == len(m.params)]
+    if not cands and cname in tab:
+        cands = [c for c in tab['*'] if len(c) == len(m.params)]
+    if len(cands) > 1:
+        t = [p['type'].get('qualType', '') for p in m.params]
+        pair = len(t) >= 2 and t[0] == t[1]
+        cands = [c for c in cands if (c[0] == 'begin') == pair]
+    return cands[0] if len(cands) == 1 else None
+
+
+def member_sig(t, records, in_record=False):
+    import re
+    tc = typeclass(t)
+    t2 = (t or '').replace('const ', '').strip()
+    if tc in ('vector', 'list'):
+        return tc + ('<rec>' if any(('::' + r) in t2 for r in records) else '<scalar>')
+    if tc == 'other':
+        if t2 in ('unsigned long', 'size_t', 'std::size_t', 'unsigned long long'):
+            return 'ulong'
+        if t2 == 'float':
+            return 'float'
+    if in_record and tc not in ('umap_it', 'tree_it', 'list_it', 'vec_it', 'optional', 'time_point'):
+        return 'ulong' if t2 in ('unsigned long', 'size_t', 'std::size_t') else 'value'
+    return tc
+
+
+def canonicalise_names(prog):
+    """rename members that were merely renamed in the source back to the names the model uses (in the loaded AST only):
+    a missing expected member is matched with the one unexpected member of the same coarse type signature.  -> list of notes"""
+    from frontend import _walk
+    notes = []
+    for cname, sg in SIGS.items():
+        cm = prog.classes.get(cname)
+        if cm is None:
+            continue
+        # public API parameters
+        for m in cm.methods:
+            if m.access != 'public':
+                continue
+            want = canonical_params(cname, m)
+            if want is None:
+                continue
+            for p, w in zip(m.params, want):
+                if p.get('name') != w:
+                    notes.append('%s::%s: parameter %s taken for %s' % (cname, m.name, p.get('name'), w))
+                    p['name'] = w
+        ren = {}        # FieldDecl id -> canonical name
+        have = {f.name: f for f in cm.fields}
+        missing = [n for n in sg['class'] if n not in have]
+        extra = [f for f in cm.fields if f.name not in sg['class']]
+        for n in missing:
+            cands = [f for f in extra if member_sig(f.type, cm.records) == sg['class'][n] and f.id not in ren]
+            if len(cands) == 1:
+                ren[cands[0].id] = n
+                notes.append('%s: member %s taken for %s (same type signature %s)' % (cname, cands[0].name, n, sg['class'][n]))
+                cands[0].name = n
+                cands[0].node['name'] = n
+        allrec = [f for rec in cm.records.values() for f in rec.fields]
+        rhave = {f.name for f in allrec}
+        rmissing = [n for n in sg['rec'] if n not in rhave]
+        rextra = [f for f in allrec if f.name not in sg['rec']]
+        for n in rmissing:
+            cands = [f for f in rextra if member_sig(f.type, cm.records, True) == sg['rec'][n] and f.id not in ren]
+            if len(cands) == 1:
+                ren[cands[0].id] = n
+                notes.append('%s: record member %s taken for %s (same type signature %s)' % (cname, cands[0].name, n, sg['rec'][n]))
+                cands[0].name = n
+                cands[0].node['name'] = n
+        if not ren:
+            continue
+        cm.field_by_name = {f.name: f for f in cm.fields}
+        for node in _walk(cm.node):
+            if node.get('kind') == 'MemberExpr' and node.get('referencedMemberDecl') in ren:
+                node['name'] = ren[node['referencedMemberDecl']]
+            ai = node.get('anyInit')
+            if isinstance(ai, dict) and ai.get('id') in ren:
+                ai['name'] = ren[ai['id']]
+        for m in cm.methods:
+            for node in _walk(m.node):
+                if node.get('kind') == 'MemberExpr' and node.get('referencedMemberDecl') in ren:
+                    node['name'] = ren[node['referencedMemberDecl']]
+                ai = node.get('anyInit')
+                if isinstance(ai, dict) and ai.get('id') in ren:
+                    ai['name'] = ren[ai['id']]
+    return notes
+
+
 TTL_CONTAINERS = ('tlru_cache', 'utlru_cache', 'ut_map', 'ut_set')
 CACHES = ('lru_cache', 'mru_cache', 'rr_cache', 'fifo_cache', 'lfu_cache', 'lfuda_cache', 'tlru_cache', 'utlru_cache')
 
